@@ -49,5 +49,18 @@ add("C20",
     "real add_commands, and all argument sequences up to K; verdict, recorded names, tree and print/parse round trip "
     "compared with the reference grammar instantiated from the same definition.",
     "DESIGN.md 3/C20", "CrossHair symbolic execution (z3) of add_commands + Parser.parse + tosieve over symbolic definitions and argument sequences")
-for _p in ("C05", "C06", "C08", "C09", "C10", "C11", "C12", "C14", "C15", "C16", "C17", "C19"):
+add("C11",
+    "Bounded symbolic model checking over editing histories: after every step the set is rendered, parsed by the real "
+    "parser, reloaded with from_parser_result and rendered again; names, order, enabled status, descriptions, requires "
+    "and trees must survive and the reloaded rendering must be a fixed point.",
+    "DESIGN.md 3/C11", "CrossHair symbolic execution (z3) enumerating operation histories of FiltersSet; save/load round trip through the real parser")
+add("C12",
+    "Bounded symbolic model checking over editing histories compared in lock-step with a reference list model: results, "
+    "order, uniqueness, enabled flag vs is_filter_disabled vs rendering, and getfilter returning the filter's own content.",
+    "DESIGN.md 3/C12", "CrossHair symbolic execution (z3) enumerating operation histories of FiltersSet vs reference list model")
+add("C19",
+    "Bounded symbolic model checking of the read-back path with a symbolic value (code points are solver variables) in "
+    "each condition/action slot, and exhaustive pools for multi-condition filters, disabled and reloaded sets.",
+    "DESIGN.md 3/C19", "CrossHair symbolic execution (z3) of addfilter/args_as_tuple/to_list with symbolic string values; pool enumeration for reload")
+for _p in ("C05", "C06", "C08", "C09", "C10", "C14", "C15", "C16", "C17"):
     NOT_APPLICABLE[_p] = "check under construction in this session (see DESIGN.md section 3); not yet claimed"
